@@ -143,6 +143,9 @@ def run(ctx):
     ctx.stream("tu_net", gen.tu_net_lines(ctx.rng.fork("tu_net"), 1500 if ctx.quick else 40000),
                "CMRtuTest on network matrices of every size, certified by their digraph (network => TU is proved: NetworkTU.v)",
                describe=lambda c: gen.TU_NET_CODES.get(c, str(c)), nontrivial=lambda l, r: True)
+    ctx.stream("tu_net", gen.sp_cert_lines(ctx.rng.fork("tu_sp"), 800 if ctx.quick else 20000, True),
+               "CMRtuTest on series-parallel {-1,0,1} matrices of every size, certified by the reduction model (SP => TU is proved: SpTU.v)",
+               describe=lambda c: gen.TU_NET_CODES.get(c, str(c)), nontrivial=lambda l, r: True)
     import clilib
     clilib.stream(ctx, "cliverdict", gen.cliverdict_lines(ctx.rng.fork("cliverdict"), 0, 7, 400 if ctx.quick else 8000, (-1, 0, 1), 5, 5, 20, True),
                   "cmr-tu: verdict line vs. the definition-level oracle on the matrix parsed from the input bytes",
